@@ -218,7 +218,8 @@ def Builtin.pure (b : Builtin) (args : List Val) : Except EvalErr Val :=
   match b, args with
   | .abs, [.num n] => numOfF64 n.toF64.abs "Expected to be a valid f64"
   | .avg, [.arr xs] =>
-    numOfF64 (F64.div (sumF64 xs) (F64.ofNat xs.length)) "Expected to be a valid f64"
+    if xs.isEmpty then .ok .null
+    else numOfF64 (F64.div (sumF64 xs) (F64.ofNat xs.length)) "Expected to be a valid f64"
   | .ceil, [.num n] => numOfF64 n.toF64.ceil "Expected n.ceil() to be a valid f64"
   | .floor, [.num n] => numOfF64 n.toF64.floor "Expected to be a valid number"
   | .contains, [.arr xs, needle] => .ok (.bool (xs.any (fun x => Val.beq x needle)))
@@ -248,8 +249,8 @@ def Builtin.pure (b : Builtin) (args : List Val) : Except EvalErr Val :=
   | .toNumber, [.num n] => .ok (.num n)
   | .toNumber, [.str s] =>
     (match JsonText.parse s.toList with
-     | some v => .ok v
-     | none => .ok .null)
+     | some (.num n) => .ok (.num n)
+     | _ => .ok .null)
   | .toNumber, [_] => .ok .null
   | .toString, [.str s] => .ok (.str s)
   | .toString, [v] => .ok (.str (JsonPrint.compact v))
@@ -343,10 +344,13 @@ def interp (rt : Registry) : Nat → Val → Ast → Nat → ERes Val
     | .function o name args =>
       match interpAll rt fuel data args off with
       | .error e => .error e
-      | .ok (vs, _) =>
-        -- `ctx.offset = offset;` then `ctx.runtime.get_function(name)`
+      | .ok (vs, prev) =>
+        -- `let previous_offset = ctx.offset; ctx.offset = offset;` … `ctx.offset = previous_offset`
         match rt.get name with
-        | some f => callFn rt fuel f vs o
+        | some f =>
+          (match callFn rt fuel f vs o with
+           | .error e => .error e
+           | .ok (v, _) => .ok (v, prev))
         | none => .error (.runtime (.unknownFunction name) o)
     | .expref _ a => .ok (.expref a, off)
     | .slice o start stop step =>
